@@ -11,8 +11,9 @@
 //! * vs the property itself (`spec_fail`): `let` (and captured) ⇒ diagnostic; `var`, element, field ⇒
 //!   accepted with the exact value (i128 reference arithmetic); any other form ⇒ accepted with the
 //!   plain effect or a diagnostic; never a crash.
-//! Assignment to a captured `var`/parameter from inside the capturing lambda (D20, recorded finding)
-//! is kept out of the main stream and replayed separately.
+//! Assignment to a captured variable (from a lambda, a nested lambda or a task; D20, repaired in
+//! fdfd074) is part of the main stream: every such form must be rejected with a diagnostic, while
+//! elements / fields of captured objects and a lambda's own locals stay assignable.
 use vh::*;
 
 const OPS: [(&str, &str); 6] = [("eq", "="), ("add", "+="), ("sub", "-="), ("mul", "*="), ("div", "/="), ("mod", "%=")];
@@ -76,26 +77,34 @@ fn forms() -> Vec<Form> {
             "match {OLD} {\n  x -> {\n    let fc = () -> {\n      x {OP} {RHS}\n    }\n    fc()\n    println(x)\n  }\n}\n",
             true,
         ),
-    ]
-}
-
-/// the recorded finding D20: captured variable that the checker accepts
-fn d20_forms() -> Vec<Form> {
-    let f = |tag, target, decls, body| Form { tag, target, captured: true, decls, body, top_only: true };
-    vec![
-        f("captured-var", "var", "", "var x = {OLD}\nlet fc = () -> {\n  x {OP} {RHS}\n}\nfc()\nprintln(x)\n"),
+        f("captured-var", "var", true, "", "var x = {OLD}\nlet fc = () -> {\n  x {OP} {RHS}\n}\nfc()\nprintln(x)\n", true),
+        f("captured-var-tuple", "var", true, "", "var (x, y) = ({OLD}, 1)\nlet fc = () -> {\n  x {OP} {RHS}\n}\nfc()\nprintln(x)\n", true),
         f(
             "captured-param",
             "param",
+            true,
             "fn hp(x: {TY}) {\n  let fc = () -> {\n    x {OP} {RHS}\n  }\n  fc()\n  println(x)\n}\n",
             "hp({OLD})\n",
+            true,
         ),
         f(
             "captured-lamparam",
             "lamparam",
+            true,
             "",
             "let hl = (x: {TY}) -> {\n  let fc = () -> {\n    x {OP} {RHS}\n  }\n  fc()\n  println(x)\n}\nhl({OLD})\n",
+            true,
         ),
+        f("captured-var-nested", "var", true, "", "var x = {OLD}\nlet fo = () -> {\n  let fi = () -> {\n    x {OP} {RHS}\n  }\n  fi()\n}\nfo()\nprintln(x)\n", true),
+        f("captured-var-inner", "var", true, "", "let fo = () -> {\n  var x = {OLD}\n  let fi = () -> {\n    x {OP} {RHS}\n  }\n  fi()\n  println(x)\n}\nfo()\n", true),
+        f("captured-var-task", "var", true, "", "var x = {OLD}\ntask {\n  x {OP} {RHS}\n}\nprintln(x)\n", true),
+        f("captured-param-task", "param", true, "fn ht(x: {TY}) {\n  task {\n    x {OP} {RHS}\n  }\n  println(x)\n}\n", "ht({OLD})\n", true),
+        f("captured-let-task", "let", true, "", "let x = {OLD}\ntask {\n  x {OP} {RHS}\n}\nprintln(x)\n", true),
+        // not captured: the lambda's own local, also when declared inside a nested lambda
+        f("own-var-in-nested-lambda", "var", false, "", "let fo = () -> {\n  let fi = () -> {\n    var x = {OLD}\n    x {OP} {RHS}\n    println(x)\n  }\n  fi()\n}\nfo()\n", true),
+        // elements / fields of captured objects stay assignable (the object is shared)
+        f("elem-of-captured", "elem", false, "", "let a = [{OLD}]\nlet fc = () -> {\n  a[0] {OP} {RHS}\n}\nfc()\nprintln(a[0])\n", true),
+        f("field-of-captured", "field", false, "type Bx = { v: {TY} }\n", "let b = Bx({OLD})\nlet fc = () -> {\n  b.v {OP} {RHS}\n}\nfc()\nprintln(b.v)\n", true),
     ]
 }
 
@@ -125,6 +134,8 @@ fn classify(r: &RunResult) -> String {
         Outcome::Rejected(t) => {
             if t.contains("Can't modify immutable variable") {
                 "diag immutable".into()
+            } else if t.contains("Can't modify captured variable") {
+                "diag captured".into()
             } else if t.contains("Can't assign to this") {
                 "diag notvar".into()
             } else {
@@ -271,28 +282,5 @@ fn main() {
         }
         ctx.case(j.req.clone(), imp);
     }
-    // ---- recorded finding D20: replay
-    let mut still = 0;
-    let mut total = 0;
-    let mut replay: Vec<(String, String)> = vec![];
-    for form in d20_forms() {
-        for (_, opsym) in OPS {
-            replay.push((form.tag.to_string(), build(&form, opsym, "10", "3", "int", Ctxt::Top)));
-        }
-    }
-    let rr = par_map(&replay, |(_, src)| classify(&run_program(src)));
-    for ((tag, _), r) in replay.iter().zip(rr) {
-        total += 1;
-        ctx.count(&format!("d20:{tag}:{}", r.split(':').next().unwrap().split(' ').next().unwrap()));
-        if r.starts_with("crash") {
-            still += 1;
-        } else if !r.starts_with("diag") {
-            ctx.spec_fail(format!("captured-variable assignment ({tag}) neither crashes (D20) nor is rejected: `{r}`"));
-        }
-    }
-    if still > 0 {
-        ctx.known_findings.push("D20".into());
-    }
-    ctx.notes.push(format!("D20 replay: {still} of {total} captured-variable assignments still panic the compiler"));
     ctx.finish();
 }
